@@ -13,7 +13,8 @@
 (*   ev       "Launch" (spectrum as constructed), "Filter" (after filter_si), then one event per element:     *)
 (*            cls, d (1 = nested inside the next Multiband_amplifier event), ops (primitive ledger operations *)
 (*            applied), and the spectrum AFTER the element: f w b lab | s a n (ppb of pch) | osnr nli gsnr    *)
-(*   rx       the figures the receiving Transceiver reports after update_snr: snr osnr onli (micro-dB) and    *)
+(*   rx       the figures the receiving Transceiver reports after update_snr: snr osnr onli (micro-dB), lab  *)
+(*            (the transmitter data it holds per carrier) and                                                 *)
 (*            their reciprocal linear values isnr iosnr inli (1e-9; Inf when not representable)               *)
 (*   ref      receiver figures of the same request with the carriers given in another order (or empty)        *)
 EXTENDS ChannelOps, GnpyBase, Json, IOUtils, TLC
@@ -57,8 +58,9 @@ Where(p, e) == IF p.f = e.f THEN [k \in 1..N(e) |-> k]
 
 \* a break is blamed on the element that produces it: a channel whose books were already wrong (or whose figure was
 \* already not a number) when the element was entered is not judged again on the elements after it
-Balanced(e, k) == Within(e.s[k] + e.a[k] + e.n[k], One, TolPpb)
 InRange(e, k)  == \A x \in {e.s[k], e.a[k], e.n[k]} : x >= 0 /\ x <= One
+\* (summed in an order that cannot overflow 32 bits; a channel with a share out of range is reported by that clause)
+Balanced(e, k) == ~InRange(e, k) \/ AbsI((e.s[k] - One) + e.a[k] + e.n[k]) <= TolPpb
 Ledger(e, p, w) ==          \* p = spectrum before (p = e, w = identity for Launch / Filter: judged as they stand)
         (IF \E k \in 1..N(e) : ~Balanced(e, k) /\ (p = e \/ w[k] = 0 \/ Balanced(p, w[k])) THEN {"Conservation"} ELSE {})
    \cup (IF \E k \in 1..N(e) : ~InRange(e, k) /\ (p = e \/ w[k] = 0 \/ InRange(p, w[k])) THEN {"SharesInUnitInterval"} ELSE {})
@@ -127,6 +129,8 @@ Receiver(t) ==
          THEN {"GsnrIdentity"} ELSE {})
    \cup (IF r.f # e.f \/ \E k \in K : ~Within(r.onli[k], e.nli[k], TolUdb) \/ r.snr[k] > e.gsnr[k] + TolUdb \/ r.osnr[k] > e.osnr[k] + TolUdb
          THEN {"ReportedFromLedger"} ELSE {})
+        \* the receiver holds, for every carrier, that carrier's own transmitter data (label, transmit power)
+   \cup (IF r.lab # e.lab THEN {"OwnAttributes"} ELSE {})
    \cup (IF Len(t.ref.f) > 0 /\ (t.ref.f # r.f \/ \E k \in K : ~(Within(r.snr[k], t.ref.snr[k], TolOrderUdb) /\ Within(r.osnr[k], t.ref.osnr[k], TolOrderUdb)
                                                                   /\ Within(r.onli[k], t.ref.onli[k], TolOrderUdb)))
          THEN {"OrderIrrelevant"} ELSE {})
